@@ -223,7 +223,7 @@ class Liveness:
             for r in refs:
                 succ.setdefault(r, []).append(i.id)
         out = set()
-        arith = ('add', 'sub', 'mul', 'shl')
+        arith = ('add', 'sub', 'mul', 'shl', 'getelementptr')          # (a pointer cursor `p++` is a loop counter too)
         for i in fn.real_insts():
             if i.op not in arith:
                 continue
@@ -841,6 +841,12 @@ class Engine:
         if not isinstance(base, Ptr):
             return TOP
         path = list(base.path)
+        if inst.id in self.liveness(f.fn).induction and len(inst.x['path']) == 1 and 's' not in inst.x['path'][0]:
+            # a pointer cursor advanced round a loop: "some element of the array" - so that the state space stays finite
+            while path and path[-1][0] in ('i', 'o'):
+                path.pop()
+            path.append(('i', '?'))
+            return Ptr(base.base, tuple(path))
         for stp in inst.x['path']:
             if 's' in stp:
                 path.append(('f', self.mod.field_name(stp['s'], stp['f']), stp['f']))
